@@ -43,7 +43,7 @@ def state_fidelity(rho: np.ndarray, rho_exp: np.ndarray) -> float:
 
     """
     rho_exp = np.array(rho_exp)
-    rho_root = sqrtm(np.array(rho))
+    rho_root = _matrix_sqrt(np.array(rho))
     if rho_root.shape != rho_exp.shape:
         msg = (
             "Mismatch in dimensions between provided density matrices, "
@@ -51,7 +51,7 @@ def state_fidelity(rho: np.ndarray, rho_exp: np.ndarray) -> float:
         )
         raise ValueError(msg)
     inner = rho_root @ rho_exp @ rho_root
-    return abs(np.trace(sqrtm(inner)))
+    return abs(np.trace(_matrix_sqrt(inner)))
 
 
 def process_fidelity(choi: np.ndarray, choi_exp: np.ndarray) -> float:
@@ -115,6 +115,18 @@ def choi_from_unitary(unitary: np.ndarray) -> np.ndarray:
     # the process tomography routines use for the choi matrix
     u_vec = np.array(unitary).T.flatten()
     return np.outer(u_vec, np.conj(u_vec))
+
+
+def _matrix_sqrt(mat: np.ndarray) -> np.ndarray:
+    """
+    Finds the principal square root of a matrix. For hermitian matrices, such
+    as density matrices, this uses an eigendecomposition, as the general
+    algorithm can fail for the singular matrices produced by pure states.
+    """
+    if np.allclose(mat, np.conj(mat.T), rtol=0, atol=1e-12):
+        vals, vecs = np.linalg.eigh(mat)
+        return (vecs * np.sqrt(vals.astype(complex))) @ np.conj(vecs.T)
+    return sqrtm(mat)
 
 
 def _vec(mat: np.ndarray) -> np.ndarray:
